@@ -38,6 +38,61 @@ class Action:
     prods: List[Production]
 
 
+def lower_enumerate_counters(fn: ast.FunctionDef) -> ast.FunctionDef:
+    """`i = 0 ... for i, T in enumerate(G, start=1): BODY` is `i = 0 ... for T in G: i += 1; BODY`
+    (the same values of i inside BODY and after the loop).  Rewritten only when `i = 0` precedes
+    the loop in the same block with no other store to i in between and BODY does not store i."""
+    import copy
+
+    from .core import link_parents
+
+    def stores(n: ast.AST, name: str) -> bool:
+        return any(isinstance(x, ast.Name) and x.id == name and isinstance(x.ctx, ast.Store) for x in ast.walk(n))
+
+    changed = False
+    new_fn = copy.deepcopy(fn)
+
+    def visit(block: List[ast.stmt]) -> None:
+        nonlocal changed
+        for k, st in enumerate(block):
+            for field in ("body", "orelse", "finalbody"):
+                sub = getattr(st, field, None)
+                if isinstance(sub, list) and sub and isinstance(sub[0], ast.stmt):
+                    visit(sub)
+            if not (isinstance(st, ast.For) and isinstance(st.target, ast.Tuple) and len(st.target.elts) == 2 and isinstance(st.target.elts[0], ast.Name)):
+                continue
+            it = st.iter
+            if not (isinstance(it, ast.Call) and isinstance(it.func, ast.Name) and it.func.id == "enumerate" and len(it.args) >= 1):
+                continue
+            start = it.args[1] if len(it.args) > 1 else next((kw.value for kw in it.keywords if kw.arg == "start"), None)
+            if not (isinstance(start, ast.Constant) and start.value == 1):
+                continue
+            i = st.target.elts[0].id
+            init = None
+            for prev in reversed(block[:k]):
+                if stores(prev, i):
+                    init = prev
+                    break
+            ok_init = isinstance(init, (ast.Assign, ast.AnnAssign)) and isinstance(init.value, ast.Constant) and init.value.value == 0 and not isinstance(init.value.value, bool)
+            if not ok_init or any(stores(b, i) for b in st.body) or st.orelse:
+                continue
+            inc = ast.copy_location(ast.AugAssign(target=ast.Name(id=i, ctx=ast.Store()), op=ast.Add(), value=ast.Constant(value=1)), st)
+            st.target = st.target.elts[1]
+            st.iter = it.args[0]
+            st.body = [inc] + st.body
+            ast.fix_missing_locations(st)
+            changed = True
+
+    visit(new_fn.body)
+    if not changed:
+        return fn
+    link_parents(new_fn)
+    par = getattr(fn, "_parent", None)
+    if par is not None:
+        new_fn._parent = par  # type: ignore[attr-defined]
+    return new_fn
+
+
 def inline_generator_loops(fn: ast.FunctionDef, helpers: Dict[str, ast.FunctionDef], depth: int = 2) -> ast.FunctionDef:
     """A copy of `fn` in which `for T in self.gen(args): BODY` over a generator
     method `gen` is replaced by gen's body (parameters substituted) with every
